@@ -200,6 +200,97 @@ def render_td(T, V, style, rng):
     return [(render_leaf(T, V, style, rng), T)]
 
 
+# ------------------------------------------------------------------ column orders
+# A sheet need not keep the columns of one field together: column-major lists of records
+# (o.1.text, o.2.text, o.1.value, o.2.value), a split sub-record (c.name, note, c.phone), a split
+# list (tag.1, note, tag.2).  RowParser only requires that the entries of one list are OPENED in
+# increasing order (f.2… may not come before the first f.1… column).
+
+
+def header_path(h):
+    return h.split(":")[0].split("=")[0].strip().split(".")
+
+
+def valid_order(headers):
+    """every list entry is opened after its predecessor (what RowParser.find_entry asserts)."""
+    seen = {}
+    for h in headers:
+        p = header_path(h)
+        for i, seg in enumerate(p):
+            if seg.isdigit():
+                k, node = int(seg), tuple(p[:i])
+                if k > seen.get(node, 0) + 1:
+                    return False
+                seen[node] = max(seen.get(node, 0), k)
+    return True
+
+
+def interleave(hdrs, rng, mode=None):
+    """a non-contiguous but RowParser-valid order of the (header, leaf type) list."""
+    n = len(hdrs)
+    if n < 3 or n > 160:
+        return None
+    mode = mode or rng.choice(["shuffle", "shuffle", "column_major", "column_major", "split"])
+    if mode == "column_major":
+        # all columns of the same sub-field together, entries in increasing order
+        first = {}
+        keyed = []
+        for idx, (h, lt) in enumerate(hdrs):
+            p = header_path(h)
+            key = tuple(seg for seg in p if not seg.isdigit())
+            first.setdefault(key, idx)
+            keyed.append((first[key], tuple(int(seg) for seg in p if seg.isdigit()), idx, (h, lt)))
+        out = [x[3] for x in sorted(keyed, key=lambda x: x[:3])]
+    elif mode == "split":
+        out = list(hdrs)
+        for _ in range(8):
+            i, j = rng.randrange(n), rng.randrange(n)
+            cand = list(out)
+            cand.insert(j, cand.pop(i))
+            if valid_order([h for h, _ in cand]):
+                out = cand
+                if rng.random() < 0.5:
+                    break
+    else:
+        # random order, built left to right from the columns that may come next
+        rest = list(hdrs)
+        out = []
+        seen = {}
+        while rest:
+            ok = []
+            for x in rest:
+                p = header_path(x[0])
+                if all(int(seg) <= seen.get(tuple(p[:i]), 0) + 1 for i, seg in enumerate(p) if seg.isdigit()):
+                    ok.append(x)
+            x = rng.choice(ok)
+            rest.remove(x)
+            out.append(x)
+            p = header_path(x[0])
+            for i, seg in enumerate(p):
+                if seg.isdigit():
+                    seen[tuple(p[:i])] = max(seen.get(tuple(p[:i]), 0), int(seg))
+    if out == list(hdrs) or not valid_order([h for h, _ in out]):
+        return None
+    return out
+
+
+def is_contiguous(headers):
+    """the columns of every field (at every level) are adjacent"""
+    def chk(paths):
+        seen, last = set(), None
+        groups = {}
+        for p in paths:
+            k = p[0]
+            if k != last and k in seen:
+                return False
+            seen.add(k)
+            last = k
+            if len(p) > 1:
+                groups.setdefault(k, []).append(p[1:])
+        return all(chk(g) for g in groups.values())
+    return chk([header_path(h) for h in headers])
+
+
 # ------------------------------------------------------------------ real-code side
 
 
@@ -437,8 +528,20 @@ def schema_worker(job):
     for fs, _ in schemas:
         styled.append(render(fs, True, rng))
     m_styled = drv.results([{"op": "infer.infer", "headers": [h for h, _ in hs]} for hs in styled])
+    # non-contiguous column orders of the canonical headers (several per schema in a search)
+    n_il = 1 if given is None else 4
+    inter = []
+    for fs, _ in schemas:
+        cands = [interleave(render(fs), rng) for _ in range(n_il)]
+        uniq = []
+        for c in cands:
+            if c is not None and c not in uniq:
+                uniq.append(c)
+        inter.append(uniq)
+    m_inter = iter(drv.results([{"op": "infer.infer", "headers": [h for h, _ in hs]} for il in inter for hs in il]))
+    m_inter = [[next(m_inter) for _ in il] for il in inter]
 
-    for (fs, ordered), mr, hs_st, mst in zip(schemas, m_render, styled, m_styled):
+    for (fs, ordered), mr, hs_st, mst, ils, mils in zip(schemas, m_render, styled, m_styled, inter, m_inter):
         res["n"] += 1
         hdrs = render(fs)
         headers = [h for h, _ in hdrs]
@@ -508,7 +611,28 @@ def schema_worker(job):
             res["viol"].append({"what": "inferred fields/types/defaults differ from the schema the headers denote", "schema": fs, "headers": headers, "inferred": got,
                                 "row": row, "row_inferred": parse_outcome(inferred, row), "row_explicit": parse_outcome(explicit, row)})
             continue
-        for which, hh, mdl in (("canonical", hdrs, inferred), ("restyled", hs_st, inferred_st)):
+        spellings = [("canonical", hdrs, inferred), ("restyled", hs_st, inferred_st)]
+        # B3 + C on non-contiguous column orders: same schema, same explicit twin
+        for hs_il, mil in zip(ils, mils):
+            h_il = [h for h, _ in hs_il]
+            cnt("order.interleaved")
+            if not is_contiguous(h_il):
+                cnt("order.non_contiguous")
+            real_il, inferred_il = real_infer(h_il)
+            if "ok" in mil:
+                if {"ok": mil["ok"]["ty"]} != real_il:
+                    res["ties"].append({"what": "model infer differs from real model_from_headers (interleaved columns)", "headers": h_il, "model": mil, "real": real_il})
+            elif mil.get("err") != "unsupported" and {"err": mil.get("err")} != real_il:
+                res["ties"].append({"what": "model infer differs from real model_from_headers (interleaved columns)", "headers": h_il, "model": mil, "real": real_il})
+            got_il = real_il["ok"].get("model") if "ok" in real_il and isinstance(real_il["ok"], dict) else None
+            if inferred_il is None or canon_schema(got_il) != canon_schema(fs):
+                row = {h: gen_cell(random.Random(0), lt, 0.0) for h, lt in hs_il}
+                res["viol"].append({"what": "the inferred structure depends on the order of the columns: interleaved columns of the same schema give other fields/types/defaults",
+                                    "schema": fs, "headers": h_il, "headers_contiguous": headers, "inferred": got_il if inferred_il is not None else real_il,
+                                    "row": row, "row_inferred": parse_outcome(inferred_il, row) if inferred_il is not None else None, "row_explicit": parse_outcome(explicit, row)})
+                continue
+            spellings.append(("interleaved", hs_il, inferred_il))
+        for which, hh, mdl in spellings:
             if mdl is None:
                 res["viol"].append({"what": "model_from_headers fails on restyled headers of a family schema", "headers": [h for h, _ in hh], "error": real_st})
                 continue
@@ -644,6 +768,10 @@ def ci_worker(job):
     for _ in range(n):
         fs = [["ID", "str", {"s": ""}]] + [f for f in gen_fields(rng, rng.randint(0, maxdepth), rng.randint(1, 4)) if f[0] != "ID"]
         hdrs = render(fs)
+        if rng.random() < 0.5:
+            hdrs = interleave(hdrs, rng) or hdrs     # columns of one field need not be adjacent
+            if not is_contiguous([h for h, _ in hdrs]):
+                res["strata"]["ci.non_contiguous_columns"] = res["strata"].get("ci.non_contiguous_columns", 0) + 1
         headers = [h for h, _ in hdrs]
         explicit = build_explicit(fs)
         walks, dicts = [], []
@@ -775,7 +903,10 @@ def run(ck: core.Check):
         "schemas drawn from the family (records, indexed lists with per-index defaults, lists of records, lists of lists, "
         "List[T]/list annotations, all basic types, defaults incl. dotted ones (a.b, 1.5), 12% of the indexed lists with 10-12 entries (two-digit indices), "
         "index columns out of order in the restyled spelling), nesting depth 0..3 (quick) / 0..4 (thorough), 70% in "
-        "the order the code builds (simple fields first) and 30% in arbitrary order; each rendered canonically and in a restyled "
+        "the order the code builds (simple fields first) and 30% in arbitrary order; each rendered canonically, in a restyled "
+        "spelling and in a non-contiguous column order (random interleaving / column-major lists of records / split sub-records and lists, "
+        "list entries still opened in increasing order); "
+        "each rendered canonically and in a restyled "
         "spelling; rows: conforming / with blanks / with columns omitted; a case is non-trivial always (≥1 field); distinct = "
         "distinct header lists"
     )
@@ -826,7 +957,7 @@ def run(ck: core.Check):
 
     # self-check of the distribution
     need = ["schema.has_list_of_records", "schema.has_record", f"schema.depth={maxdepth}", "rows.omitted", "rows.blanks", "schema.InFamily",
-            "schema.has_indexed_list_of_10+", "schema.has_dotted_default"]
+            "schema.has_indexed_list_of_10+", "schema.has_dotted_default", "order.non_contiguous"]
     missing = [s for s in need if not ck.strata.get(s)]
     if missing:
         raise core.Infra(f"generator self-check: strata never hit: {missing}")
